@@ -2,6 +2,7 @@ package simcheck
 
 import (
 	"fmt"
+	"strings"
 	"sort"
 	"time"
 
@@ -26,6 +27,7 @@ type c15Holder struct {
 type c15In struct {
 	Shape   int         `json:"shape"`
 	Holders []c15Holder `json:"holders"`
+	Pip     *c14In      `json:"pip,omitempty"` // shape 3: holders are pipeline tasks whose lock maps come from the pip:run command line
 }
 
 var c15Names = []string{"db", "dbx", "net", "x"} // "dbx" extends "db": names must be matched exactly
@@ -64,6 +66,18 @@ func c15Gen(r *Rand, tier string) interface{} {
 			}
 		}
 		in.Holders = []c15Holder{{Map: a}, {Map: b}}
+		return in
+	}
+	if r.Chance(1, 12) {
+		// the pipeline shape: 2-3 tasks submitted through the runner, each starting a nested
+		// task with --wlock / --rlock flags on one shared name; the whole application runs
+		in.Shape = 3
+		p := &c14In{Submitters: 1 + r.Intn(2), Isolated: true}
+		for i, n := 0, 2+r.Intn(2); i < n; i++ {
+			p.Tasks = append(p.Tasks, c14Task{Name: fmt.Sprintf("t%d", i), FailAt: -1, GapMS: r.Pick(0, 0, 1), By: r.Intn(p.Submitters),
+				Nested: true, NestLock: r.Pick(1, 2, 3, 3)})
+		}
+		in.Pip = p
 		return in
 	}
 	if r.Chance(1, 6) {
@@ -108,6 +122,14 @@ func c15Key(m map[string]bool) string {
 
 func c15Run(inI interface{}, env *Env) *Failure {
 	in := inI.(*c15In)
+	if in.Shape == 3 {
+		env.Count("probe.pipeline-shape-runs")
+		f := c14Run(in.Pip, env)
+		if f != nil && f.Clause != "" {
+			f.Clause = strings.Replace(f.Clause, "C14/", "C15/pipeline-", 1)
+		}
+		return f
+	}
 	var post *Failure
 	readers := map[string]int{}
 	writers := map[string]int{}
@@ -260,6 +282,9 @@ func c15Run(inI interface{}, env *Env) *Failure {
 func c15Shrink(inI interface{}) []interface{} {
 	in := inI.(*c15In)
 	var out []interface{}
+	if in.Shape == 3 {
+		return out
+	}
 	cp := func() *c15In {
 		c := &c15In{Shape: in.Shape}
 		for _, h := range in.Holders {
@@ -311,9 +336,9 @@ func init() {
 		New:    func() interface{} { return &c15In{} },
 		Run:    c15Run,
 		Shrink: c15Shrink,
-		Rule: "one case = (2-6 holders, lock maps over 4 resource names incl. empty and full, hold times) x one seeded schedule, or one independence probe (A parked inside, compatible B must enter); " +
+		Rule: "one case = (2-6 holders, lock maps over 4 resource names incl. empty and full, hold times) x one seeded schedule, or one independence probe (A parked inside, compatible B must enter; three-party variant), or the pipeline shape (2-3 runner tasks whose nested pip:run tasks name one resource with --wlock / --rlock / both: writers never overlap); " +
 			"the order in which the shared mutex walks a lock map is itself a seeded choice; non-trivial = a scheduling decision with more than one runnable task; distinct = distinct (input, decision sequence)",
-		Real: []string{"app/modules/commonm/commservices/mutex (SharedMutex, unlock handler)"},
+		Real: []string{"app/modules/commonm/commservices/mutex (SharedMutex, unlock handler)", "pipeline shape: the whole application of C14 (pip:run command line -> lock map -> runner -> SharedMutex)"},
 		Stub: []string{"sync.RWMutex -> simrt.RWMutex (writer preference as in Go)", "scheduler, clock", "holders (probe tasks)"},
 		Assumptions: []string{
 			"the pipeline-task shape of the design (lock maps attached to pip:run tasks) is exercised by C14's whole-application harness, not here",
